@@ -116,6 +116,8 @@ def span_matches(sp, src, st):
         return sp.name == src.name + ".span"
     if isinstance(sp, dict) and sp.get("_v") == "Some":
         o = sp["0"]
+        if isinstance(o, L):      # the input's span moved into a fresh Some(..) without ever being looked into
+            return o.name == src.name + ".span.Some.0"
         return isinstance(o, Opaque) and o.data == ("in", src.name + ".span.Some.0")
     if span_none(sp):
         return src.span is False
